@@ -22,8 +22,12 @@ type Feat struct {
 // restricted by Valid, each element evaluated once by Eval (DESIGN.md §2.4, §2.7).
 type EnumSpec struct {
 	Feats []Feat
-	Valid func(v []int) bool                                     // optional: prune combinations that make no sense
-	Eval  func(v []int) (clause, detail string, nontrivial bool) // runs one case; clause "" = holds
+	Valid func(v []int) bool // optional: prune combinations that make no sense
+	// Reduce (optional): combinations that make sense but are left out of the full product to keep it
+	// small. They are not lost: every such combination in which at most t features are non-neutral
+	// (t = 3 in the quick tier, 4 in the thorough tier) is evaluated by the t-way pass of Run.
+	Reduce func(v []int) bool
+	Eval   func(v []int) (clause, detail string, nontrivial bool) // runs one case; clause "" = holds
 	// OutcomeOf (optional) classifies the observed behaviour for the distinct-outcome count
 	Sample int64 // record a sample every n cases (0 = 2000)
 	// Seqs: groups of features that form a sequence (trailing elements neutral); the minimiser
@@ -136,7 +140,7 @@ func (s *EnumSpec) Run(c *Ctx) {
 	var idx int64
 	var mins []enumMin
 	for {
-		if s.Valid == nil || s.Valid(v) {
+		if (s.Valid == nil || s.Valid(v)) && (s.Reduce == nil || !s.Reduce(v)) {
 			idx++
 			if c.Mine(idx) {
 				if c.Expired() {
@@ -166,9 +170,50 @@ func (s *EnumSpec) Run(c *Ctx) {
 			v[i] = 0
 		}
 		if i < 0 {
-			return
+			break
 		}
 	}
+	if s.Reduce == nil {
+		return
+	}
+	// t-way pass over what Reduce left out: every choice of at most t features, every tuple of
+	// non-neutral values for them, all other features neutral
+	t := 3
+	if c.Thorough() {
+		t = 4
+	}
+	var rec func(start, left int)
+	rec = func(start, left int) {
+		if (s.Valid == nil || s.Valid(v)) && s.Reduce(v) {
+			idx++
+			if c.Mine(idx) && !c.Expired() {
+				cl, detail, nt := s.Eval(v)
+				c.Res.Evaluations++
+				c.Res.Executions++
+				c.Count("t_way_cases_outside_the_reduced_product", 1)
+				if nt {
+					c.Res.Nontrivial++
+				}
+				if cl != "" {
+					s.attribute(c, v, cl, detail, &mins)
+				}
+			}
+		}
+		if left == 0 {
+			return
+		}
+		for f := start; f < n; f++ {
+			for x := 1; x < dom[f]; x++ {
+				v[f] = x
+				rec(f+1, left-1)
+			}
+			v[f] = 0
+		}
+	}
+	for i := range v {
+		v[i] = 0
+	}
+	rec(0, t)
 }
 
 type enumMin struct {
@@ -330,7 +375,7 @@ func (a *AgedSpec) Run(c *Ctx) {
 	enumerate := func(visit func(v []int, k string)) {
 		v := make([]int, n)
 		for {
-			if s.Valid == nil || s.Valid(v) {
+			if (s.Valid == nil || s.Valid(v)) && (s.Reduce == nil || !s.Reduce(v)) {
 				if k := a.Group(v); k != "" {
 					visit(v, k)
 				}
